@@ -13,6 +13,7 @@ func init() {
 			c.ruleUnknownGuard("R-UNKNOWN-GUARD", 5)
 			c.ruleUnknownPreserve("R-UNKNOWN-PRESERVE")
 			c.ruleOptsProp("R-OPTS-PROP")
+			c.ruleOptsBridge("R-OPTS-BRIDGE", "unmarshal")
 		},
 	})
 }
